@@ -111,6 +111,8 @@ ProbeInputs ==
   \cup {Base({}, {i}) : i \in LiveIn}                                                  \* each leaf ill-typed
   \cup {Base({}, LiveIn)}                                                              \* every leaf ill-typed
   \cup {RemoveKey(Base({}, {}), PsIn[i]) : i \in LiveIn}                               \* each mapped key missing
+  \cup {RemoveKey(RemoveKey(Base({}, {}), PsIn[i]), PsIn[j]) : i \in LiveIn, j \in LiveIn}    \* two mapped keys missing (possibly at two levels)
+  \cup {RemoveKey(Base({}, {j}), PsIn[i]) : i \in LiveIn, j \in LiveIn}                      \* a missing key and an ill-typed leaf
   \cup {Subst(Base({}, {}), pre, NoneV) : pre \in InnerNodes}                          \* each inner node of the wrong kind
   \cup {Subst(Base({}, {}), pre, IF NodeIsList(PathSet(PsIn), pre) THEN Dict(<<>>, <<>>) ELSE List(<<>>)) : pre \in InnerNodes \cup {<<>>}}
   \cup {NoneV}
